@@ -45,7 +45,7 @@ def run(ctx, factor):
             objs.append((objfuzz.assemble(ctx.scratch, secs, name="o%d" % k), names))
         if ctx.tier == "thorough":
             for f in sorted(glob.glob(os.path.join(impl.REPO, "tests", "binary", "*"))):
-                if os.path.getsize(f) < 400000:
+                if os.path.getsize(f) < 50000:       # AesCore, md5sum, smc, smc_eko (the larger ones take minutes each)
                     objs.append((f, [".text", ".init", ".fini", ".plt"]))
         for path, names in objs:
             for secs in ([], [names[0]], names, [".nosuch"], [names[0], ".nosuch"])[: (5 if len(names) > 1 else 4)]:
